@@ -18,6 +18,8 @@ import Dippy.Model.Statusline
 import Dippy.Model.Sql
 import Dippy.Model.PyCli
 import Dippy.Lemmas.RoundTrip
+import Dippy.Model.PyAst
+import Dippy.Generated.PyAst
 
 open Lean Dippy
 
@@ -404,6 +406,45 @@ def toHookEnv (j : Json) : HookEnv :=
     shellToolNames := Generated.shellToolNames
     bypassModes := Generated.bypassModes }
 
+mutual
+/-- the serialised Python AST of harness/corr_pyast.py -/
+partial def toPNode (j : Json) : R PyAst.PNode := do
+  let k ← str j "k"
+  let l := match j.getObjValD "l" with
+    | .num n => n.mantissa.toNat
+    | _ => 0
+  let fs ← (← arr j "f").toList.mapM fun e => do
+    let pr ← e.getArr?
+    let name ← (pr[0]!).getStr?
+    let v ← toPVal pr[1]!
+    return (name, v)
+  return .mk k l fs
+partial def toPVal (j : Json) : R PyAst.PVal := do
+  match j with
+  | .str "none" => return .none
+  | .str _ => return .other
+  | _ =>
+    match j.getObjVal? "n" with
+    | .ok n => return .node (← toPNode n)
+    | .error _ =>
+      match j.getObjVal? "s" with
+      | .ok (.str s) => return .str s
+      | _ =>
+        match j.getObjVal? "l" with
+        | .ok (.arr items) => return .list (← items.toList.mapM toPItem)
+        | _ => return .other
+partial def toPItem (j : Json) : R PyAst.PItem := do
+  match j with
+  | .str _ => return .other
+  | _ =>
+    match j.getObjVal? "n" with
+    | .ok n => return .node (← toPNode n)
+    | .error _ =>
+      match j.getObjVal? "s" with
+      | .ok (.str s) => return .str s
+      | _ => return .other
+end
+
 def handle (j : Json) : R Json := do
   let op ← str j "op"
   match op with
@@ -495,6 +536,18 @@ def handle (j : Json) : R Json := do
       | .askOption => Json.mkObj [("v", "ask-option"), ("allow", false)]
       | .noScript => Json.mkObj [("v", "no-script"), ("allow", false)]
       | .analysed p sf => Json.mkObj [("v", "analysed"), ("path", Json.str p), ("allow", sf)])
+  | "py_visit" =>
+    -- SafetyAnalyzer.visit on a serialised tree: violations in order and the import roots of the shadowing check
+    let tree ← toPNode (j.getObjValD "tree")
+    let T : PyAst.Tables :=
+      { safeModules := Generated.PyAst.safeModules, dangerousModules := Generated.PyAst.dangerousModules,
+        dangerousBuiltins := Generated.PyAst.dangerousBuiltins, dangerousAttrs := Generated.PyAst.dangerousAttrs,
+        reflectionAttrs := Generated.PyAst.reflectionAttrs, moduleAliasAttrs := Generated.PyAst.moduleAliasAttrs }
+    let vs := PyAst.visit T true tree
+    return Json.mkObj [
+      ("violations", Json.arr (vs.map fun v => Json.arr #[Json.num (v.line : Nat), Json.str v.kind, Json.str v.detail]).toArray),
+      ("roots", Json.arr ((PyAst.importRoots tree).map Json.str).toArray),
+      ("first", optStrJson (PyAst.firstReason T true tree))]
   | "py_runs" =>
     return (match PyCli.pythonRuns false (← strList (j.getObjValD "args")) with
       | .interactive => Json.mkObj [("runs", "interactive")]
